@@ -90,6 +90,7 @@ func load(files []*harnessFile, pkgPaths []string) (*loaded, error) {
 		Dir:     repoDir,
 		Env:     goEnv(),
 		Overlay: overlay,
+		BuildFlags: []string{"-tags=verif"},
 	}
 	pats := append([]string{}, pkgPaths...)
 	pats = append(pats, verifPkgPath, "errors", "runtime")
